@@ -320,17 +320,21 @@ theorem wellformed_accepted (C : Crypto) (keys : List Key) (cap : Nat) (env : En
     exact absurd hbuf hlen
 
 /-- **verifyMsg_source_shape** (translator obligation): the statements of the Go function `verifyMsg`,
-printed from its AST on this check run, are exactly the ones `Model.verifyMsg` mirrors, in order. -/
+printed from its AST on this check run, are exactly the ones `Model.verifyMsg` mirrors, in order.
+The text is modulo α-renaming: T-const renames the parameters by position (`p0` = `msg`, `p1` =
+`pubkeys`) and the locals in order of declaration (`v0`, `v1` = the two `typ`, `v2` = `msgPubkey`,
+`v3` = `exists`, `v4` = `ok`, `v5` = `err`), so renaming a local in the Go source does not touch this
+statement, while a removed, added, changed or reordered check does. -/
 theorem verifyMsg_source_shape : QbftConst.verifyMsgShape = [
-    "msg == nil || msg.GetDuty() == nil",
-    "typ := qbft.MsgType(msg.GetType()); !typ.Valid()",
-    "typ := core.DutyType(msg.GetDuty().GetType()); !typ.Valid()",
-    "msg.GetRound() <= 0",
-    "msg.GetPreparedRound() < 0",
-    "msgPubkey, exists := pubkeys[msg.GetPeerIdx()]",
-    "!exists",
-    "ok, err := verifyMsgSig(msg, msgPubkey); err != nil",
-    "else !ok",
+    "p0 == nil || p0.GetDuty() == nil",
+    "v0 := qbft.MsgType(p0.GetType()); !v0.Valid()",
+    "v1 := core.DutyType(p0.GetDuty().GetType()); !v1.Valid()",
+    "p0.GetRound() <= 0",
+    "p0.GetPreparedRound() < 0",
+    "v2, v3 := p1[p0.GetPeerIdx()]",
+    "!v3",
+    "v4, v5 := verifyMsgSig(p0, v2); v5 != nil",
+    "else !v4",
     "return nil"] := by
   decide
 
